@@ -118,25 +118,34 @@ def decodeBlocks (r : Rate) (fill : Rate → List Nat → List Byte → List Nat
     let (s1, xs) := decodeBlock r s ws
     xs :: decodeBlocks r fill n s1 ws (data.drop r.blockBytes)
 
-/-- the decoded blocks of a data region -/
+/-- the decoded blocks of a data region of `len` bytes; `bytes` = the file from the data offset to its end (at least the
+    region; `psf_fread` does not stop at the end of the data chunk, so a short final block of a WAV data chunk that has
+    another chunk behind it is filled from that chunk) -/
+def decodedBlocksIn (r : Rate) (fill : Rate → List Nat → List Byte → List Nat) (len : Nat) (bytes : List Byte) : List (List Int) :=
+  decodeBlocks r fill (blocksTotal r len) (St.init r) (List.replicate 41 0) bytes
+
+/-- the usual case: the data region runs to the end of the file -/
 def decodedBlocks (r : Rate) (fill : Rate → List Nat → List Byte → List Nat) (data : List Byte) : List (List Int) :=
-  decodeBlocks r fill (blocksTotal r data.length) (St.init r) (List.replicate 41 0) data
+  decodedBlocksIn r fill data.length data
 
 /-- the sample stream of a data region: a function of the bytes only -/
 def stream (r : Rate) (data : List Byte) : List Int := (decodedBlocks r blockWords data).flatten
 
-def readerWith (r : Rate) (fill : Rate → List Nat → List Byte → List Nat) (data : List Byte) : Reader :=
-  let bt := blocksTotal r data.length
-  let blocks := decodedBlocks r fill data
+def readerWith (r : Rate) (fill : Rate → List Nat → List Byte → List Nat) (len : Nat) (bytes : List Byte) : Reader :=
+  let bt := blocksTotal r len
+  let blocks := decodedBlocksIn r fill len bytes
   { spb := spb, ch := 1, frames := spb * (bt + 1),
     src := fun k => if k < bt then fixLen spb (blocks.getD k []) else zeros spb }
 
-def reader (r : Rate) (data : List Byte) : Reader := readerWith r blockWords data
-def readerOld (r : Rate) (data : List Byte) : Reader := readerWith r blockWordsOld data
+def reader (r : Rate) (data : List Byte) : Reader := readerWith r blockWords data.length data
+def readerOld (r : Rate) (data : List Byte) : Reader := readerWith r blockWordsOld data.length data
 
 /-- a handle opened for reading on a data region -/
 def openR (r : Rate) (data : List Byte) : RHandle := RHandle.open (reader r data) (framesAtOpen r data.length)
 def openROld (r : Rate) (data : List Byte) : RHandle := RHandle.open (readerOld r data) (framesAtOpen r data.length)
+/-- … on a data region of `len` bytes followed by more bytes of the file -/
+def openRIn (r : Rate) (old : Bool) (len : Nat) (bytes : List Byte) : RHandle :=
+  RHandle.open (readerWith r (if old then blockWordsOld else blockWords) len bytes) (framesAtOpen r len)
 
 /-- `sf_read_T (n items)`: (handle, the cells of the caller's buffer that were written — a prefix of the request —,
     return value) -/
